@@ -195,6 +195,11 @@ def routes_for(old):
         out.append(["move-edit", [], ["set", k, typed("moved")]])
         out.append(["move-edit", [], ["del", k]])
     out.append(["move-edit", [], ["set", "new", typed(5)]])
+    # move THROUGH THE FIRST SHALLOW COPY, then a state point change through the handle left behind
+    for k in old:
+        out.append(["copy-move", [], ["set", k, typed("moved")]])
+        out.append(["copy-move", [], ["del", k]])
+    out.append(["copy-move", [], ["set", "new", typed(5)]])
     return out
 
 
@@ -213,13 +218,15 @@ def pick_pay(rng, route):
 
 def make_desc(old, route, dest, cfg, pay, pre=False, pv=None):
     prov, access, shallow, deep, pickle_ = cfg
+    if route[0] == "copy-move":
+        shallow = max(shallow, 1)      # the route needs a shallow copy to move through
     new = spec_new(route, old)
     from_uninit = prov == "PUninit"
     if from_uninit:
         pay = PAYLOADS[0]
     if new is None or from_uninit:
         dest = "DAbsent"
-    elif route[0] == "move-edit":
+    elif route[0] in ("move-edit", "copy-move"):
         dest = "DAbsent"
     elif route[0] not in ("move", "clone"):
         from signac.job import calc_id
@@ -255,7 +262,7 @@ def gen_inputs(tier, rng):
                     # the pre-check must fire (or, with overwrite, the value must change) on an existing key
                     key = "update-conflict-falsy" if any(any(old[k] is f or (old[k] == f and type(old[k]) is type(f)) for f in falsy) for k in hit) else "update-conflict"
             by_kind.setdefault(key, []).append((old, r))
-        quota = {"move": 40, "clone": 40, "move-edit": 36, "update-conflict": 30, "update-conflict-falsy": 30, "update": 30}
+        quota = {"move": 40, "clone": 40, "move-edit": 36, "copy-move": 36, "update-conflict": 30, "update-conflict-falsy": 30, "update": 30}
         chosen = []
         nd, nc = len(DESTS), len(HANDLE_CONFIGS)
         for key, lst in sorted(by_kind.items()):
@@ -314,7 +321,7 @@ def build_script(desc, calc_id):
     route = desc["route"]
     new = spec_new(route, old)
     nsp = old if new is None else new
-    rekey = route[0] not in ("move", "clone", "move-edit")
+    rekey = route[0] not in ("move", "clone", "move-edit", "copy-move")
     sd = 0 if rekey else 1
     dproj = "A" if rekey else "B"
     uninit = desc["prov"] == "PUninit"
@@ -369,19 +376,24 @@ def build_script(desc, calc_id):
         main = ["UpdateSp", hm, route[1], route[2]]
     elif route[0] in ("move", "move-edit"):
         main = ["Move", hm, 1]
+    elif route[0] == "copy-move":
+        main = ["Move", hm if c1 is None else c1, 1]
     else:
         main = ["Clone", 1, hm]
     cl = nh if (route[0] == "clone" and desc["dest"] in ("DAbsent", "DHandle") and not uninit) else None
     ops += [(1, ["Tree"]), (2, main)]
-    if route[0] == "move-edit":
+    if route[0] == "move-edit" or (route[0] == "copy-move" and c1 is not None):
         ops.append((4, ["Edit", hm, route[1], route[2]]))
     ops.append((3, ["Tree"]))
     for k, x in enumerate([hm, c1, c2, dp, pk, cl, tw]):
         if x is not None:
             ops += [(10 + 3 * k, ["IdPath", x]), (11 + 3 * k, ["Sp", x]), (12 + 3 * k, ["Cached", x])]
     ops += [(0, ["NewSession", "A"]), (40, ["Ids", ns]), (0, ["NewSession", "B"]), (41, ["Ids", ns + 1])]
+    cm = route[0] == "copy-move" and c1 is not None
+    for k, x in [(1, c1)] if cm else []:
+        ops.append((50 + k, ["Doc", x]))
     for k, x in [(0, hm), (1, c1), (2, c2), (5, cl)]:
-        if x is not None and (rekey or k in (0, 5)):
+        if x is not None and (rekey or k in (0, 5)) and not (cm and k == 0):
             ops.append((50 + k, ["Doc", x]))
     ops.append((60, ["Tree"]))
     for x in (dp, pk):
@@ -391,9 +403,52 @@ def build_script(desc, calc_id):
     if cl is not None and desc["pay"]["files"]:
         ent = desc["pay"]["files"][-1]
         ops += [(72, ["ViaAppend", cl, ent[0], "21", ent[1] + "21"]), (73, ["Tree"])]
+    if byid_expected(desc, old, new):
+        ops += [(43, ["OpenId", sid, calc_id(nsp)]), (44, ["Sp", nh]), (45, ["Cached", nh])]
     if tw is not None:
         ops.append((42, ["OpenId", sid, oid]))
     return ops
+
+
+def py_eq_merge(ex, nw):
+    """what SyncedDict._update(nw) makes of the existing value ex - a transcription of Ws.v upd_gen (result component),
+    used ONLY to decide where the by-id probe is scripted; the same decision is made in Coq (byid_expected / class_drop):
+    values that compare == are kept, None over a container is ignored"""
+    if nw == ex:
+        return ex
+    if isinstance(nw, dict):
+        if not isinstance(ex, dict):
+            return nw
+        cur = dict(ex)
+        for k, nv in nw.items():
+            cur[k] = py_eq_merge(cur[k], nv) if k in cur else nv
+        return {k: v for k, v in cur.items() if k in nw}
+    if isinstance(nw, list):
+        if not isinstance(ex, list):
+            return nw
+        n = min(len(ex), len(nw))
+        return [py_eq_merge(ex[i], nw[i]) for i in range(n)] + nw[n:]
+    if nw is None and isinstance(ex, (dict, list)):
+        return ex
+    return nw
+
+
+def byid_expected(desc, old, new):
+    route = desc["route"]
+    if route[0] not in ("edit", "assign", "update") or desc["prov"] == "PUninit" or new is None:
+        return False
+    if route[0] == "edit":
+        return True
+    has_cell = desc["prov"] == "PInit" or desc["access"] or desc["pickle"] or desc["shallow"] > 0
+    if route[0] == "assign":
+        ex, nw = (old if has_cell else {}), untyped(route[1])
+    else:
+        ex, nw = old, {**old, **untyped(route[1])}
+    merged = py_eq_merge(ex, nw)
+    drop = json.dumps(typed(merged), sort_keys=True) != json.dumps(typed(nw), sort_keys=True)
+    if drop and route[0] == "update" and not route[2]:
+        drop = json.dumps(typed(merged), sort_keys=True) != json.dumps(typed(new), sort_keys=True)
+    return not drop
 
 
 def coq_route(L, r):
@@ -403,6 +458,8 @@ def coq_route(L, r):
         return f"(RAssign {L.json(untyped(r[1]))})"
     if r[0] == "update":
         return f"(RUpdate {L.json(untyped(r[1]))} {coq_bool(r[2])})"
+    if r[0] == "copy-move":
+        return f"(RCopyMove {coq_list([wsops.coq_step(L, s) for s in r[1]], 'pstep')} {wsops.coq_act(L, r[2])})"
     if r[0] == "move-edit":
         return f"(RMoveEdit {coq_list([wsops.coq_step(L, s) for s in r[1]], 'pstep')} {wsops.coq_act(L, r[2])})"
     return "RMove" if r[0] == "move" else "RClone"
@@ -429,6 +486,10 @@ def run_case(desc):
                 out = ["exn", "EOther"]      # the handle the script expects does not exist
             else:
                 out = W.run(op)
+                if tag == 2 and op[0] in ("Assign", "UpdateSp"):
+                    # harness-only: the caller goes on using the mapping it assigned (nested value and top level)
+                    W.run(["MutateAssigned", op[1], "zz", typed(99), True])
+                    W.run(["MutateAssigned", op[1], "zy", typed([98]), False])
             outs.append(wsops.coq_oval(L, out))
             log.append([tag, op, out if out[0] != "tree" else ["tree", len(out[1])]])
       finally:
@@ -441,7 +502,7 @@ def run_case(desc):
     main_out = next(o for t, _, o in log if t == 2)
     old = untyped(desc["old"])
     new = spec_new(desc["route"], old)
-    changes = new is None or desc["route"][0] in ("move", "clone", "move-edit") or calc_id(new) != calc_id(old)
+    changes = new is None or desc["route"][0] in ("move", "clone", "move-edit", "copy-move") or calc_id(new) != calc_id(old)
     rk = desc["route"][0] if desc["route"][0] != "edit" else "edit-" + desc["route"][2][0]
     kinds = [rk, desc["dest"], desc["prov"], "shallow%d" % desc["shallow"],
              "result-" + (main_out[1] if main_out[0] == "exn" else "ok")]
